@@ -368,6 +368,45 @@ def run_case(mod, sc, case, stats, tier, findings, raise_known=False, record=Tru
     return ctx
 
 
+def corpus_files(prop):
+    """saved inputs of earlier failures (regress/<prop>/*.json: shrunk cases that exposed a fixed defect, a hand-written mutant or an
+    independently seeded change). They are inputs, not oracles: each is re-run through its sub-check like a generated case."""
+    d = os.path.join(VERIF_DIR, "regress", prop)
+    if os.environ.get("VERIF_NO_CORPUS") == "1" or not os.path.isdir(d):
+        return []
+    return [os.path.join(d, f) for f in sorted(os.listdir(d)) if f.endswith(".json")]
+
+
+def run_corpus(mod, prop, tier, stats, open_f, only, shard):
+    """replays this shard's share of the saved-input corpus; returns a violation dict or None"""
+    k, nsh = shard
+    by_name = {sc.name: sc for sc in mod.SUBCHECKS}
+    for i, path in enumerate(corpus_files(prop)):
+        if i % nsh != k:
+            continue
+        try:
+            ent = json.load(open(path))
+            sc = by_name.get(ent["sub_check"])
+            case = ent["case"]
+        except Exception:
+            sc = None
+        if sc is None:
+            stats.discarded["corpus:unreadable-or-unknown-sub-check"] = stats.discarded.get("corpus:unreadable-or-unknown-sub-check", 0) + 1
+            continue
+        if only and sc.name not in only:
+            continue
+        try:
+            run_case(mod, sc, case, stats, tier, open_f)
+            stats.classes["corpus:replayed"] = stats.classes.get("corpus:replayed", 0) + 1
+        except Violation as v:
+            return {"property": prop, "sub_check": sc.name, "signature": v.signature, "message": v.message + f" [saved input {os.path.relpath(path, VERIF_DIR)}]",
+                    "detail": v.detail, "case": jsonable(case), "seed": None, "tier": tier}
+        except HarnessError:
+            # the case was saved by an older version of the check and can no longer be interpreted: counted, never an alarm
+            stats.discarded["corpus:stale-case-format"] = stats.discarded.get("corpus:stale-case-format", 0) + 1
+    return None
+
+
 def run_shard(prop, tier, seed, only=None, budget_scale=1.0, shrink_seconds=None, shard=(0, 1)):
     """Run all sub-checks of a property in this process. Returns dict(stats, violation)."""
     import hypothesis
@@ -380,7 +419,15 @@ def run_shard(prop, tier, seed, only=None, budget_scale=1.0, shrink_seconds=None
     harness_error = None
     if shrink_seconds is None:
         shrink_seconds = 45 if tier == "quick" else 240
+    try:
+        violation = run_corpus(mod, prop, tier, stats, open_f, only, shard)
+    except BaseException as e:
+        if isinstance(e, KeyboardInterrupt):
+            raise
+        harness_error = "".join(traceback.format_exception(type(e), e, e.__traceback__))
     for idx, sc in enumerate(mod.SUBCHECKS):
+        if violation is not None or harness_error is not None:
+            break
         if only and sc.name not in only:
             continue
         n = sc.quick if tier == "quick" else sc.thorough
